@@ -44,6 +44,7 @@ func checkC18(c *core.Ctx) error {
 	c18IntParse(c)
 	c18AccessorsReadInputs(c)
 	c18FactoriesFresh(c)
+	c18AccessorShapes(c)
 	c18LikeNamed(c)
 	c18NamedKeys(c)
 	c18DecoderComplete(c)
@@ -2656,5 +2657,68 @@ func c18FactoriesFresh(c *core.Ctx) {
 			}
 			return fd.Pos()
 		}(), "the factory returns (something derived from) the registered prototype itself instead of reflect.New of its type: every distribution of this family decoded in one process is the same object, and importing a second one overwrites the first")
+	})
+}
+
+// c18AccessorShapes (R5, configuration accessors): an accessor that builds an n x m matrix from a decoded list of numbers
+// compares the length of the list with n*m first. The dense matrix constructor stores values and shape as given, so a
+// truncated or inconsistent configuration otherwise yields a matrix whose first access panics (index out of range) instead
+// of an "invalid config" error from the importer.
+func c18AccessorShapes(c *core.Ctx) {
+	p := c.Pkg("statistics")
+	if p == nil {
+		return
+	}
+	info := p.TypesInfo
+	core.EachFunc(p, func(_ *ast.File, fd *ast.FuncDecl) {
+		if fd.Recv == nil || core.RecvTypeName(fd) != "ConfigDistribution" || !strings.HasSuffix(fd.Name.Name, "AsMatrix") {
+			return
+		}
+		// the two dimension parameters
+		var dims []types.Object
+		for _, f := range fd.Type.Params.List {
+			for _, nm := range f.Names {
+				if b, ok := info.Defs[nm].Type().Underlying().(*types.Basic); ok && b.Info()&types.IsInteger != 0 {
+					dims = append(dims, info.Defs[nm])
+				}
+			}
+		}
+		if len(dims) != 2 {
+			return
+		}
+		guarded := false
+		ast.Inspect(fd.Body, func(n ast.Node) bool {
+			be, ok := n.(*ast.BinaryExpr)
+			if !ok {
+				return true
+			}
+			switch be.Op {
+			case token.EQL, token.NEQ, token.LSS, token.GTR, token.LEQ, token.GEQ:
+			default:
+				return true
+			}
+			hasLen, nd := false, map[types.Object]bool{}
+			ast.Inspect(be, func(m ast.Node) bool {
+				if ce, ok := m.(*ast.CallExpr); ok {
+					if id, ok := ce.Fun.(*ast.Ident); ok && id.Name == "len" {
+						hasLen = true
+					}
+				}
+				if id, ok := m.(*ast.Ident); ok {
+					for _, d := range dims {
+						if info.Uses[id] == d {
+							nd[d] = true
+						}
+					}
+				}
+				return true
+			})
+			if hasLen && len(nd) == 2 {
+				guarded = true
+			}
+			return true
+		})
+		c.Check(guarded, "C18.R5", c.FuncName(p, fd), "length of the decoded list compared with the requested shape", fd.Pos(),
+			"the accessor builds a matrix of the requested shape from the decoded numbers without comparing their count with rows*cols: a truncated configuration gives a matrix whose first element access panics instead of an import error")
 	})
 }
